@@ -37,6 +37,14 @@ def cases(rng, tier):
     for n in (17, 18):
         for kind, j in (("qft", 1 << (n - 1)), ("qft_swapped", 1), ("qft", 3), ("qft_swapped", (1 << n) - 2)):
             cs.append({"kind": "applybasis", "n": n, "j": j, "e": (kind, (1 << n) - 1), "no_model": True})
+    # 16-17 qubits, serial and threaded: the transform over two or three of the highest qubits (every rung controlled on
+    # a qubit beyond any block of cells), basis states read at every image
+    for _ in range(40 if tier == "quick" else 600):
+        k = rng.choice(["qft", "qft_swapped"])
+        c = gen.high_probe(rng, k, n=rng.choice([16, 17]), lo=rng.choice([12, 14, 14]), nctrl=0)
+        if rng.random() < 0.3:
+            c["e"] = ("dgr", c["e"])
+        cs.append(c)
     # structure on wide masks
     for _ in range(20):
         m = rng.getrandbits(rng.choice([8, 20, 40, 62]))
